@@ -609,6 +609,15 @@ def rule12_shared(ctx, fl):
                                                   'myth_tls_tree_destroy', 'myth_tls_key_allocator_alloc'],
                        stops=('myth_tls_tree_node_free', 'myth_free') + lib.SPIN_STOPS, flavour=fl)
         ctx.attempt(c11.rule123_walk, ctx, v11)
+    from . import c10
+    with ctx.shared({'C10.2': 'C16.18'}, floor=4,
+                    doc='pthread_getspecific on a key the thread never set returns NULL (shared with C10.2): a fresh leaf of the per-thread '
+                        'tree has all 16 value slots cleared (thread records are recycled), and set / get descend by the same bit groups'):
+        v10 = ctx.view('myth_if_native.c', roots=['myth_tls_tree_get', 'myth_tls_tree_set', 'myth_tls_key_allocator_alloc',
+                                                  'myth_tls_key_allocator_dealloc', 'myth_tls_tree_node_alloc_leaf', 'myth_tls_tree_node_alloc_node'],
+                       stops=('myth_tls_tree_node_alloc', 'myth_malloc') + lib.SPIN_STOPS, flavour=fl)
+        ctx.attempt(c10.rule2_decomp, ctx, v10)
+        ctx.attempt(c10.rule2_levels, ctx, v10)
     with ctx.shared({'C14.1': 'C16.14', 'C14.2': 'C16.14', 'C14.3': 'C16.14'}, floor=6,
                     doc='pthread_once (shared with C14.1-3, forwarded by C16.1): one caller is elected by a CAS from the initial value, '
                         'the routine is called by the elected caller only, completion is published after it, and nobody returns before '
